@@ -14,7 +14,7 @@ class {cls}(RulePlugin):
         super().__init__()
         self.count = 0
     def get_details(self):
-        return PluginDetailsV2(plugin_name="{name}", plugin_id="{pid}", plugin_enabled_by_default=True,
+        return PluginDetailsV2(plugin_name="{name}", plugin_id="{pid}", plugin_enabled_by_default={enabled},
             plugin_description="verif probe", plugin_version="0.0.1", plugin_interface_version=2,
             plugin_supports_fix=False, plugin_fix_level=1)
 {methods}
@@ -66,7 +66,7 @@ def write_probe(dirpath, spec):
     cbs = [c for c in ("start", "token", "line", "done") if spec[c]]
     methods = "".join(SEM_METHODS[c].format(pid=spec["id"], resets=spec["resets"], tokTrig=spec["tokTrig"],
                                             boom=spec["boom"], lineTrig=spec["lineTrig"], doneReport=spec["doneReport"]) for c in cbs)
-    src = SEM_TMPL.format(cls=cls, name="probe-" + spec["id"].lower(), pid=spec["id"], methods=methods)
+    src = SEM_TMPL.format(cls=cls, name="probe-" + spec["id"].lower(), pid=spec["id"], methods=methods, enabled=bool(spec.get("enabled", True)))
     return implib.write(os.path.join(dirpath, mod + ".py"), src)
 
 
@@ -86,7 +86,31 @@ def builtin_meta():
         allids = getattr(pm, "_PluginManager__all_ids")
         _META["ids"] = sorted({fp.plugin_id for fp in allids.values()})
         _META["all_ids"] = {k: fp.plugin_id for k, fp in allids.items()}
+        _META["default"] = sorted({fp.plugin_id for fp in allids.values() if fp.plugin_enabled_by_default})
+        _META["fix"] = {fp.plugin_id: (fp.plugin_supports_fix, fp.plugin_fix_level) for fp in allids.values()}
     return _META["ids"], _META["all_ids"]
+
+
+def default_ids():
+    builtin_meta()
+    return _META["default"]
+
+
+def fix_meta():
+    builtin_meta()
+    return _META["fix"]
+
+
+def only_args(enabled):
+    """argv prefix that enables exactly the given built-in rule ids."""
+    ids, _ = builtin_meta()
+    a = []
+    off = [x for x in ids if x not in enabled]
+    if off:
+        a += ["-d", ",".join(off)]
+    if enabled:
+        a += ["-e", ",".join(enabled)]
+    return a
 
 
 def xs(s):
@@ -147,7 +171,7 @@ def model_request(specs, texts, cont, extra_ids=None, tokens=None):
         amap["probe-" + sp["id"].lower()] = sp["id"].lower()
     if extra_ids:
         amap.update(extra_ids)
-    ordered = sorted(specs, key=lambda s: s["id"].lower())
+    ordered = sorted((s for s in specs if s.get("enabled", True)), key=lambda s: s["id"].lower())
     rules = ";".join(",".join([xs(sp["id"]), flags(sp), xs(sp["lineTrig"]), xs(sp["tokTrig"]), xs(sp["boom"])]) for sp in ordered)
     files = []
     for i, t in enumerate(texts):
